@@ -145,6 +145,10 @@ class Printer:
         self.default_file = None
         self.byref_captures = set()     # decl ids of non-reference variables a lambda captures by reference
         self.renamed = {}               # decl id -> printed name, for parameters whose C++ name repeats (expanded packs)
+        self.loop_counters = {}         # loop ordinal -> printed name of the loop's counter variable (NV_LOOPVAR_<c_name>_<k>)
+        self.tu = None                  # translation unit of the function (set by core.Fn.emit): where unmapped /repo helpers are looked up
+        self.auto_fns = {}              # (name, function type) -> C name of an auto-extracted helper (shared with nested printers)
+        self.auto_texts = []            # C definitions of the auto-extracted helpers, callees first (shared with nested printers)
 
     # ------------------------------------------------------------------ types
     def ctype_q(self, q):
@@ -680,8 +684,55 @@ class Printer:
         if m is None:
             if self.any_opaque_operand(inner[1:]):
                 return self.havoc_value(n, f'call {rd["name"]} on erased numerics')
-            raise Unsupported(f'call not mapped: {key}')
+            m = self.auto_extract(rd)
+            if m is None:
+                raise Unsupported(f'call not mapped: {key}')
         return self.apply(m, inner[1:], node=n, key=key)
+
+    def auto_extract(self, rd):
+        """an unmapped callee that is a plain (non-member) function of /repo whose body is visible in this translation unit
+        -- typically a file-local helper that a maintainer factored out of a function under contract -- is printed as C with
+        the same mapping tables and called by name: it is the real code, it has no contract of its own, CBMC analyses it
+        inline.  Returns the C name, or None when the callee is not such a function (then the call stays `not mapped`)."""
+        import astload
+        nm, ty = rd.get('name'), (rd.get('type') or {}).get('qualType')
+        if not self.tu or not nm or not ty or not re.fullmatch(r'[A-Za-z_]\w*', nm):
+            return None
+        if (nm, ty) in self.auto_fns:
+            return self.auto_fns[(nm, ty)]
+        try:
+            docs = astload.dump(self.tu, nm)
+        except ExtractionError:
+            return None
+        cands = {}
+        for d in docs:
+            for x in astload_walk(d):
+                if x.get('kind') == 'FunctionDecl' and x.get('name') == nm and (x.get('type') or {}).get('qualType') == ty \
+                        and astload.has_body(x) and (x.get('_file') or '').startswith(astload.REPO + '/'):
+                    cands[(x.get('_file'), x.get('_line'), x.get('mangledName'))] = x
+        if len(cands) != 1:
+            return None
+        d = list(cands.values())[0]
+        cname = f'nv_auto_{self.cname}_{nm}' + (f'_{len(self.auto_fns)}' if any(k[0] == nm for k in self.auto_fns) else '')
+        sub = Printer(cname, self.types, self.calls, self.members, self.hooks, None, self.aggregates, self.stmt_hooks,
+                      self.uf_float, opaque=self.opaque, dtors=self.dtors)
+        sub.tu, sub.default_file = self.tu, d.get('_file')
+        sub.auto_fns, sub.auto_texts = self.auto_fns, self.auto_texts
+        self.auto_fns[(nm, ty)] = cname      # registered first: a recursive helper calls itself by this name
+        text = sub.function(d)
+        if sub.loops:
+            raise Unsupported(f'auto-extracted helper {nm} contains a loop (it needs a contract of its own: map it in the spec)')
+        self.auto_texts.append('static ' + sub.signature + ';')
+        self.auto_texts.append('static ' + text.replace(f'\nNV_CONTRACT_{cname}\n', '\n', 1))
+        self.protos.update(sub.protos)
+        for k, v in sub.used.items():
+            self.used[k] = self.used.get(k, 0) + v
+        self.dropped += sub.dropped
+        self.erased += sub.erased
+        self.note(f'auto-extracted /repo helper {nm} ({d.get("_file")}:{d.get("_line")})')
+        if sub.may_throw:
+            self.auto_fns[(nm, ty)] = cname + '!'     # may-throw callee: the exception check follows the calling statement
+        return self.auto_fns[(nm, ty)]
 
     def construct(self, n):
         inner = n.get('inner', [])
@@ -811,9 +862,33 @@ class Printer:
             raise Unsupported('may-throw call inside a condition')
         return e
 
-    def loop_macro(self):
+    def loop_macro(self, cond=None, parts=()):
         self.loops += 1
+        # NV_LOOPVAR_<c_name>_<k>: the loop's counter found by its ROLE (the integer variable that the condition bounds and that
+        # the loop itself advances by ++ / -- / += / -=), so that loop contracts need not know what the source calls it
+        name = self.find_loop_counter(cond, parts) if cond else None
+        if name:
+            self.loop_counters[self.loops] = name
         return f'NV_LOOP_{self.cname}_{self.loops}'
+
+    def find_loop_counter(self, cond, parts):
+        advanced = set()
+        for part in parts:
+            for x in astload_walk(part or {}):
+                if (x.get('kind') == 'UnaryOperator' and x.get('opcode') in ('++', '--')) or \
+                        (x.get('kind') == 'CompoundAssignOperator' and x.get('opcode') in ('+=', '-=')):
+                    u = unwrap(x['inner'][0])
+                    if u.get('kind') == 'DeclRefExpr':
+                        advanced.add(u['referencedDecl'].get('id'))
+        for x in astload_walk(cond):
+            if x.get('kind') == 'BinaryOperator' and x.get('opcode') in ('<', '<=', '>', '>=', '!='):
+                for side in x['inner']:
+                    u = unwrap(side)
+                    if u.get('kind') == 'DeclRefExpr' and u['referencedDecl'].get('id') in advanced \
+                            and u['referencedDecl'].get('kind') == 'VarDecl':
+                        rid = u['referencedDecl'].get('id')
+                        return self.renamed.get(rid, u['referencedDecl'].get('name'))
+        return None
 
     HOIST_OK = {'DeclStmt', 'ReturnStmt', 'CallExpr', 'CXXMemberCallExpr', 'CXXOperatorCallExpr', 'BinaryOperator',
                 'CompoundAssignOperator', 'ExprWithCleanups'}
@@ -910,7 +985,7 @@ class Printer:
                 s += self.stmt(init, ind + 1)
             c = self.cond(cond) if cond else '1'
             i = self.cond(inc) if inc else ''
-            mac = self.loop_macro()
+            mac = self.loop_macro(cond, [inc, body])
             self.loop_scope.append(len(self.scopes))
             s += f'{p}  for (; {c}; {i})\n{p}  {mac}\n' + self.block(body, ind + 1)
             self.loop_scope.pop()
@@ -920,7 +995,7 @@ class Printer:
         if k == 'WhileStmt':
             if len(inner) != 2:
                 raise Unsupported('while with condition variable')
-            mac = self.loop_macro()
+            mac = self.loop_macro(inner[0], [inner[1]])
             self.loop_scope.append(len(self.scopes))
             s = f'{p}while ({self.cond(inner[0])})\n{p}{mac}\n' + self.block(inner[1], ind)
             self.loop_scope.pop()
